@@ -49,10 +49,12 @@ def history_obs(mname, length, timeout):
             return text_is(r, exp) or (isinstance(r, str) and r == exp)
         return num_is(r, exp)
 
-    def run(first, rest, vals):
+    def run(first, rest, vals, two=False):
         reset(M, spec)
         reset(FRESH, spec)
         ev = Evaluator(M)
+        # the inputs may be changed through a second evaluator sharing the model: the first one must still see them
+        ev_set = Evaluator(M) if two else ev
         cur = {}
         for a, v in zip(init_inputs, vals[:n_init]):
             ev.set_cell_value(a, v)
@@ -64,7 +66,7 @@ def history_obs(mname, length, timeout):
             if kind == 'set':
                 v = vals[k]
                 k += 1
-                ev.set_cell_value(spelled, v)
+                ev_set.set_cell_value(spelled, v)
                 cur[addr] = v
                 g1, g2 = ev.get_cell_value(addr), ev.get_cell_value(spelled)
                 if not (val(g1) == v and val(g2) == v):
@@ -92,11 +94,11 @@ def history_obs(mname, length, timeout):
     def in_range(v):
         return isinstance(v, bool) or -9 <= v <= 99
     for first in range(nops):
-        params = [(f'o{i + 2}', int) for i in range(nrest)] + [(f'v{i}', VT) for i in range(n_init)] + [(f'w{i + 1}', VT) for i in range(length)]
+        params = [(f'o{i + 2}', int) for i in range(nrest)] + [(f'v{i}', VT) for i in range(n_init)] + [(f'w{i + 1}', VT) for i in range(length)] + [('two', bool)]
 
         def mk_body(first):
             def body(*a):
-                return run(first, a[:nrest], a[nrest:])
+                return run(first, a[:nrest], a[nrest:-1], True if a[-1] else False)
             return body
         h = make_fn(mk_body(first), params, name=f'history_{mname}_{first}')
 
@@ -105,15 +107,15 @@ def history_obs(mname, length, timeout):
                 if not (0 <= r < nops):
                     return False
             if typed:
-                for v in a[nrest:]:
+                for v in a[nrest:-1]:
                     if not in_range(v):
                         return False
             return True
 
         def show(*a, first=first):
             seq = [first] + list(a[:nrest])
-            vals = list(a[nrest:])
-            out = ['init ' + ', '.join(f'{x}={v!r}' for x, v in zip(init_inputs, vals))]
+            vals = list(a[nrest:-1])
+            out = [('[sets through a second evaluator] ' if a[-1] else '') + 'init ' + ', '.join(f'{x}={v!r}' for x, v in zip(init_inputs, vals))]
             k = n_init
             for oi in seq:
                 kind, addr, sp = ops[oi % nops]
@@ -124,13 +126,13 @@ def history_obs(mname, length, timeout):
                     out.append(f'evaluate {sp}')
             return '; '.join(out)
         last_eval = max(i for i, o in enumerate(ops) if o[0] == 'eval')
-        wit = [tuple([last_eval] * nrest) + tuple(range(3, 3 + nvals)), tuple([0] * (nrest - 1) + [last_eval]) + tuple(range(-2, -2 + nvals))]
+        wit = [tuple([last_eval] * nrest) + tuple(range(3, 3 + nvals)) + (False,), tuple([0] * (nrest - 1) + [last_eval]) + tuple(range(-2, -2 + nvals)) + (True,)]
         if typed:
-            wit.append(tuple([last_eval, 0][:nrest] + [last_eval] * max(0, nrest - 2)) + (1,) + tuple([True] * length))
+            wit.append(tuple([last_eval, 0][:nrest] + [last_eval] * max(0, nrest - 2)) + (1,) + tuple([True] * length) + (False,))
         obs.append(Ob(f'c04.history[{mname},len {length},first {ops[first][0]} {ops[first][2]}]', h, pre=pre, witness=wit, timeout=timeout,
                       cost=(nops ** nrest) / 12 * (3 if typed else 1), family=f'c04.history.{mname}',
                       bounds=f'model {mname}: all histories of length {length} over {nops} operations (set of each input, also through its defined name; '
-                             f'evaluate of each formula cell, also through its defined name), first operation fixed, the others by forking ({nops ** nrest} histories); '
+                             f'evaluate of each formula cell, also through its defined name), first operation fixed, the others by forking ({nops ** nrest} histories), sets through the same or through a second evaluator over the same model (forked); '
                              + ('initial inputs and every written value: int in -9..99 or bool (type forked); type-sensitive dependants ISNUMBER / & / IF' if typed else
                                 'initial inputs and every written value: all ints')
                              + (f'; the cells {absent} do not exist in the model until a history sets them' if absent else ''),
